@@ -45,6 +45,9 @@ type c17Mon struct {
 	// documents whose write failed on an injected storage error on the receiving side (recorded C06 finding)
 	errDocs [2]map[string]bool
 	raws    [2]*restNode
+	// last stored position per (side, key), 0 when absent: the replicator may lower a copy only to the other copy's
+	// position (roll-back to the lower of the two)
+	val map[string]uint64
 }
 
 type c17Floor struct {
@@ -53,7 +56,7 @@ type c17Floor struct {
 }
 
 func newC17Mon(env *verifsim.Env, p c06Plan) *c17Mon {
-	m := &c17Mon{env: env, plan: p, home: map[string]int{}, floor: map[string]c17Floor{}, errDocs: [2]map[string]bool{{}, {}}}
+	m := &c17Mon{env: env, plan: p, home: map[string]int{}, floor: map[string]c17Floor{}, val: map[string]uint64{}, errDocs: [2]map[string]bool{{}, {}}}
 	for _, prog := range p.Tasks {
 		for _, op := range prog {
 			if op.Kind != "put" && op.Kind != "delete" {
@@ -149,6 +152,7 @@ func (m *c17Mon) observe(side int, n *restNode, w *restWorld, oi simstore.OpInfo
 	rawDoc, _, err := n.raw.DefaultDataStore(ctx).GetRaw(ctx, oi.Key)
 	if err != nil || len(rawDoc) == 0 {
 		delete(m.floor, fkey) // removed (reset)
+		delete(m.val, fkey)
 		return
 	}
 	var cp struct {
@@ -173,6 +177,18 @@ func (m *c17Mon) observe(side int, n *restNode, w *restWorld, oi simstore.OpInfo
 		return
 	}
 	m.floor[fkey] = c17Floor{seq: S, dialled: w.net.Dialled}
+	// never below the lower of the two copies as they stood before this write (a copy is rolled back to the other
+	// copy's position, never further; an operator's reset removes the local copy first)
+	ownPrev, otherPrev := m.val[fkey], m.val[fmt.Sprintf("%d/%s", 1-side, oi.Key)]
+	m.val[fkey] = S
+	lower := ownPrev
+	if otherPrev < lower {
+		lower = otherPrev
+	}
+	if S < lower {
+		m.vio = verifsim.Vf("C17", "moved-backwards", "%s replication: the %s (%s) was stored with position %d although both copies were beyond it (this copy %d, the other copy %d): a restart now re-starts below what both sides had recorded", m.plan.Direction, where, oi.Key, S, ownPrev, otherPrev)
+		return
+	}
 	// The replicator keeps two copies of its checkpoint (its own and the peer's) and restarts from the lower of the
 	// two; the position a restart would use is what is judged.  (A copy alone may run ahead: a revision message cut
 	// off by a lost connection counts as processed for the local copy written while disconnecting; the peer's copy
